@@ -93,7 +93,7 @@ var props = map[string]*propCfg{}
 func init() {
 	props["C10"] = &propCfg{Scenarios: []scenarioRef{{"transfer_clean", 2}, {"transfer_byz", 3}}, Level: "exploration",
 		Rule: "plans (layout, knobs, actors, fault steps) generated from the seed; a run is non-trivial if at least one piece write reached the simulated disk; distinct = distinct event-trace hashes among non-trivial runs"}
-	props["C08"] = &propCfg{Scenarios: []scenarioRef{{"hostile", 3}, {"transfer_byz", 1}}, OwnsCrash: true, Level: "exploration",
+	props["C08"] = &propCfg{Scenarios: []scenarioRef{{"hostile", 3}, {"transfer_byz", 1}, {"seeding", 1}}, OwnsCrash: true, Level: "exploration",
 		Rule: "1-4 scripted attackers (oversize frame headers without body, raw garbage, truncated frames, well-formed messages with arbitrary field values in arbitrary order incl. hostile extension handshakes / ut_metadata / PEX) connect and re-connect to a real session in every state (metadata unknown via magnet, allocating/verifying with slow disk, downloading, seeding, stop/start) while an honest re-dialling seed transfers; oracles: no crash or hang of the process, oversize header dropped without waiting for (or allocating) the body, honest transfer completes; non-trivial if a piece was written or the torrent was pre-seeded; distinct = distinct event-trace hashes among non-trivial runs"}
 	props["C13"] = &propCfg{Scenarios: []scenarioRef{{"magnet", 3}, {"transfer_byz", 1}}, Level: "exploration",
 		Rule: "magnet starts (hex/base32 hash, display names needing escaping, tracker tiers, x.pe peers) with 2-6 scripted peers serving ut_metadata honestly or with lies (size over the limit / huge / wrong / omitted, wrong bytes, wrong piece size, duplicates, unrequested pieces, garbage, rejects, silence), multi-piece metadata, small MaxMetadataSize; oracles: adopted metadata hashes to the link's info-hash (own bdecoder on Torrent()), no request to a peer announcing more than the limit, fetch and download complete with an honest peer, exported link parses back (own parser) to hash/name/tiers-as-sets/peers; non-trivial if a piece was written; distinct = distinct event-trace hashes among non-trivial runs"}
@@ -113,11 +113,11 @@ func init() {
 		Rule: "downloads on the real filestorage over the simulated disk with crash snapshots (durable bytes + random subset of in-flight sectors + occasional volatile sectors, DB file copy) at seed-chosen write gates (begin/mid/end) and command points, optionally with files deleted from the image; each snapshot boots a fresh session whose claims (bitfield to an observer peer, Stats) are compared with the surviving files; non-trivial if at least one restart was checked; distinct = distinct event-trace hashes among non-trivial runs"}
 	props["C03"] = &propCfg{Scenarios: []scenarioRef{{"seeding", 1}}, Level: "exploration",
 		Rule: "seeding plans from the seed: layout, read-cache block size/capacity/TTL, parallel reads, request-queue and unchoke limits, partial seed, disk read errors, 1-5 scripted leechers issuing generated requests (aligned, unaligned, crossing cache-block multiples, invalid, for missing pieces, while choked, cancels); non-trivial if at least one block was received and checked; distinct = distinct event-trace hashes among non-trivial runs"}
-	props["C11"] = &propCfg{Scenarios: []scenarioRef{{"seeding", 2}, {"transfer_byz", 2}, {"transfer_clean", 1}}, Level: "exploration",
+	props["C11"] = &propCfg{Scenarios: []scenarioRef{{"seeding", 2}, {"transfer_byz", 2}, {"pair", 2}, {"transfer_clean", 1}}, Level: "exploration",
 		Rule: "every byte the SUT emits to a scripted peer passes a strict decoder under PRNG fragmentation (handshake, core, fast and extension messages, ut_metadata, PEX); seeding runs also compare the upload counter with the piece payload bytes seen by a socket tap; non-trivial if a piece was written to disk or a block was uploaded; distinct = distinct event-trace hashes among non-trivial runs"}
 	props["C09"] = &propCfg{Scenarios: []scenarioRef{{"transfer_byz", 2}, {"picker", 3}, {"transfer_clean", 1}}, Level: "exploration",
 		Rule: "each request a scripted peer receives is checked against that peer's own view (advertised pieces, choke state / allowed-fast, haves sent by the SUT, one piece per peer, request-queue limit), the number of peers at which the SUT keeps un-cancelled block requests for one piece outstanding for >2 s (all of them caught up with the SUT's stream) against the end-game duplicate limit, and Stats().Pieces.Available against the union of settled peers; non-trivial if at least one piece write happened; distinct = distinct event-trace hashes among non-trivial runs"}
-	props["C01"] = &propCfg{Scenarios: []scenarioRef{{"transfer_byz", 4}, {"transfer_clean", 1}}, Level: "exploration",
+	props["C01"] = &propCfg{Scenarios: []scenarioRef{{"transfer_byz", 4}, {"corrupt", 1}, {"transfer_clean", 1}}, Level: "exploration",
 		Rule: "plans generated from the seed with byzantine peers / faulty web seeds / stop-start commands; non-trivial if at least one piece write reached the simulated disk; distinct = distinct event-trace hashes among non-trivial runs"}
 }
 
